@@ -347,10 +347,10 @@ func hostileAuthorities(x *c16World, rngSeed uint64) map[string]string {
 		"gov-mixed-case": strings.ToUpper(gov[:6]) + gov[6:],
 		// (the all-upper-case spelling is deliberately absent: it is valid bech32 for the *same* account, resolves
 		// to the same required signer, and x/evm's MsgCallContract accepts it by design)
-		"gov-long-s":     strings.Replace(gov, "s", "\u017f", 1),
-		"gov-truncated":  gov[:len(gov)-1],
-		"gov-padded":     gov + " ",
-		"gov-hex":        common.BytesToAddress(chain.GovAddr()).Hex(),
+		"gov-long-s":    strings.Replace(gov, "s", "\u017f", 1),
+		"gov-truncated": gov[:len(gov)-1],
+		"gov-padded":    gov + " ",
+		"gov-hex":       common.BytesToAddress(chain.GovAddr()).Hex(),
 	}
 	if s, err := bech32.ConvertAndEncode("cosmos", chain.GovAddr()); err == nil {
 		out["gov-other-hrp"] = s
